@@ -450,5 +450,24 @@ class Interp:
                 raise ShapeError(f'table function raises at line {st.lineno}')
             elif isinstance(st, ast.Assert):
                 continue
+            elif isinstance(st, ast.Try) and not st.finalbody and not st.orelse:
+                # native exceptions only (a conversion that refuses its operand): the handler named for it runs
+                names = {'ValueError': ValueError, 'OverflowError': OverflowError, 'TypeError': TypeError, 'KeyError': KeyError,
+                         'ZeroDivisionError': ZeroDivisionError, 'ArithmeticError': ArithmeticError, 'Exception': Exception}
+                try:
+                    self.run(st.body, env)
+                except (_Return, _Continue, _Break, ShapeError):
+                    raise
+                except Exception as ex:
+                    for h in st.handlers:
+                        tys = [h.type] if h.type is not None and not isinstance(h.type, ast.Tuple) else (list(h.type.elts) if h.type is not None else [])
+                        cls = tuple(names[ast.unparse(t)] for t in tys if ast.unparse(t) in names)
+                        if h.type is None or (cls and isinstance(ex, cls)):
+                            if h.name:
+                                env[h.name] = ex
+                            self.run(h.body, env)
+                            break
+                    else:
+                        raise
             else:
                 raise ShapeError(f'statement kind {type(st).__name__} not read')
